@@ -14,8 +14,37 @@ os.close(fd)
 env = dict(os.environ)
 env["PYTHONPATH"] = lib + os.pathsep + here
 env["VERIF_SUITE_TRACES"] = path
-files = [os.path.join("lib/Crypto/SelfTest", f) for f in sys.argv[1:]]
-p = subprocess.run([sys.executable, "-m", "pytest", "-q", "-p", "no:cacheprovider", "-p", "suite_plugin", "--continue-on-collection-errors",
+plugin = "suite_plugin"
+argv = sys.argv[1:]
+if argv and argv[0].startswith("--plugin="):
+    plugin = argv.pop(0).split("=", 1)[1]
+native = None
+if argv and argv[0].startswith("--native="):
+    # the library's own runner (python -m Crypto.SelfTest style): it also runs the known-answer tests that get_tests() builds from
+    # the vector files, which pytest does not collect.  argv: sub-package names (Hash, Protocol, ...) or dotted test modules
+    native = argv.pop(0).split("=", 1)[1].split(",")
+if native:
+    boot = ("import sys, unittest, importlib\n"
+            "import %s as plug\n"
+            "plug.pytest_configure(None)\n"
+            "suite = unittest.TestSuite()\n"
+            "for name in %r:\n"
+            "    m = importlib.import_module('Crypto.SelfTest.' + name)\n"
+            "    suite.addTests(m.get_tests(config={}))\n"
+            "r = unittest.TextTestRunner(verbosity=0, stream=sys.stdout).run(suite)\n"
+            "plug.pytest_sessionfinish(None, 0)\n"
+            "print('native: ran %%d, failures %%d, errors %%d' %% (r.testsRun, len(r.failures), len(r.errors)))\n") % (plugin, native)
+    p = subprocess.run([sys.executable, "-W", "ignore", "-c", boot], cwd=root, env=env, stdout=subprocess.PIPE, stderr=subprocess.STDOUT, text=True)
+    try:
+        with open(path) as f:
+            traces = json.load(f)
+    finally:
+        os.unlink(path)
+    tail = p.stdout.strip().splitlines()[-1] if p.stdout.strip() else ""
+    json.dump({"traces": traces, "pytest_summary": tail, "returncode": p.returncode}, sys.stdout)
+    sys.exit(0)
+files = [os.path.join("lib/Crypto/SelfTest", f) for f in argv]
+p = subprocess.run([sys.executable, "-m", "pytest", "-q", "-p", "no:cacheprovider", "-p", plugin, "--continue-on-collection-errors",
                     "-x" if False else "-q"] + files, cwd=root, env=env, stdout=subprocess.PIPE, stderr=subprocess.STDOUT, text=True)
 try:
     with open(path) as f:
